@@ -98,6 +98,10 @@ is_assignable(CPPType *type) {
   case CPPDeclaration::ST_typedef:
     return is_assignable(type->as_typedef_type()->_type);
 
+  case CPPDeclaration::ST_array:
+    // The synthesized setter copies the elements, which takes a known bound.
+    return type->as_array_type()->_bounds != nullptr;
+
   default:
     return true;
   }
